@@ -63,11 +63,16 @@ def blake(n,M,bitlen=None,salt=0,h0=None,t0=0):
         h=compress(n,h,raw[o:o+B//8],t,s)
     out=b''.join(x.to_bytes(w//8,'big') for x in h)
     return out[:n//8]
-if __name__=='__main__':
-    assert blake(256,b'\0').hex().upper()=='0CE8D4EF4DD7CD8D62DFDED9D4EDB0A774AE6A41929A74DA23109E8F11139C87'
-    assert blake(256,b'\0'*72).hex().upper()=='D419BAD32D504FB7D44D460C42C5593FE544FA4C135DEC31E21BD9ABDCC22D41'
-    assert blake(224,b'\0').hex().upper()=='4504CB0314FB2A4F7A692E696E487912FE3F2468FE312C73A5278EC5'
-    assert blake(512,b'\0').hex().upper().startswith('97961587F6D970FABA6D2478045DE6D1')
-    assert blake(512,b'\0'*144).hex().upper().startswith('313717D608E9CF758DCB1EB0F0C3CF9F')
-    assert blake(384,b'\0'*144).hex().upper().startswith('0B9845DD429566CDAB772BA195D271EF')
-    print('blake ref ok')
+def selftest():
+    """BLAKE submission test vectors (1 zero byte; 72 / 144 zero bytes)"""
+    kat=[(256,1,'0CE8D4EF4DD7CD8D62DFDED9D4EDB0A774AE6A41929A74DA23109E8F11139C87'),
+         (256,72,'D419BAD32D504FB7D44D460C42C5593FE544FA4C135DEC31E21BD9ABDCC22D41'),
+         (224,1,'4504CB0314FB2A4F7A692E696E487912FE3F2468FE312C73A5278EC5'),
+         (224,72,'F5AA00DD1CB847E3140372AF7B5C46B4888D82C8C0A917913CFB5D04'),
+         (512,1,'97961587F6D970FABA6D2478045DE6D1FABD09B61AE50932054D52BC29D31BE4FF9102B9F69E2BBDB83BE13D4B9C06091E5FA0B48BD081B634058BE0EC49BEB3'),
+         (512,144,'313717D608E9CF758DCB1EB0F0C3CF9FC150B2D500FB33F51C52AFC99D358A2F1374B8A38BBA7974E7F6EF79CAB16F22CE1E649D6E01AD9589C213045D545DDE'),
+         (384,1,'10281F67E135E90AE8E882251A355510A719367AD70227B137343E1BC122015C29391E8545B5272D13A7C2879DA3D807'),
+         (384,144,'0B9845DD429566CDAB772BA195D271EFFE2D0211F16991D766BA749447C5CDE569780B2DAA66C4B224A2EC2E5D09174C')]
+    for n,ln,d in kat:
+        if blake(n,bytes(ln)).hex().upper()!=d: raise AssertionError(('blake ref KAT',n,ln))
+    return len(kat)
